@@ -122,6 +122,10 @@ def run(ctx, prop, props_files, fams, oracle_names, assumptions, level_rule, mod
         if model:
             d, why = projects.compare_model(ap, obs)
             if d is None:
+                d, why = projects.compare_sd(ap, obs)          # second-granularity model (Model/SubSlot.v)
+                if d is not None:
+                    stats["model:subslot"] += 1
+            if d is None:
                 stats["model:outside_dialect"] += 1
             else:
                 ncore += 1
